@@ -34,7 +34,7 @@ static io_buf_t g_iob;
 static uint8_t g_mem[4096 + 64];
 static atomic_uint g_ncb, g_started, g_fence, g_done_flag, g_stopped;
 static int g_in_start, g_rearm_cnt, g_destroyed;
-static atomic_uint g_cb_after_stop;
+static atomic_uint g_cb_after_stop, g_ntimeout;
 
 static uint64_t
 now_us(void) {
@@ -64,6 +64,7 @@ task_cb(tp_task_p tptask, int error, io_buf_p buf, uint32_t eof, size_t transfer
 		mark_stopped();
 		ret = TP_TASK_CB_NONE;
 	} else if (ETIMEDOUT == error) {
+		atomic_fetch_add(&g_ntimeout, 1);
 		ret = TP_TASK_CB_CONTINUE; /* keep waiting: the task re-arms its timer */
 	} else if (0 != (TP_TASK_IOF_F_BUF & eof) && 0 == g_scn->dir) { /* recv() returned 0: the stream really ended */
 		tp_task_stop(tptask);
@@ -232,6 +233,7 @@ c16_run(const c16_scn *scn, c16_out *out) {
 	atomic_store(&g_done_flag, 0);
 	atomic_store(&g_stopped, 0);
 	atomic_store(&g_cb_after_stop, 0);
+	atomic_store(&g_ntimeout, 0);
 	tp_harness_reset(&scn->plans);
 	g_close_unknown_passthrough = 1; /* tasks close descriptors their owner created */
 	tp_res_get(&rs0);
@@ -349,8 +351,12 @@ c16_run(const c16_scn *scn, c16_out *out) {
 	for (waited = 0; 0 == atomic_load(&g_stopped) && waited < 120; waited ++)
 		usleep(500);
 	out->run_us = now_us() - out->run_us;
-	if (0 != scn->timeout_ms && 0 == atomic_load(&g_stopped) && 0 == scn->end)
-		usleep(1000u * (scn->timeout_ms + scn->timeout_ms / 2)); /* an armed idle task must report its timeout */
+	if (0 != scn->timeout_ms && scn->timeout_ms <= 500 && 0 == atomic_load(&g_stopped) && 0 == scn->end &&
+	    0 == scn->dir && 0 == scn->handler) {
+		/* an armed idle task must report its timeout: wait for it with a generous ceiling
+		 * instead of assuming a delivery latency */
+		tp_wait_until(&g_ntimeout, 1, CEIL_MS / 2);
+	}
 	out->hang |= fences(2);
 	/* owner destroys the task; afterwards no callback may come */
 	if (0 == tpt_msg_send(g_owner, NULL, 0, final_cb, NULL))
